@@ -103,6 +103,9 @@ class Spec:
             self.solver = [op["name"], jcopy(op.get("opts", {}))]
         elif k == "set_value":
             self.values[op["p"]] = jcopy(op["v"])
+        elif k == "set_value_cat":
+            for p, v in zip(op["ps"], op["v"]):
+                self.values[p] = v
         elif k == "set_initial":
             self.initial = [e for e in self.initial if e[0] != op["x"]]
             self.initial.append([op["x"], jcopy(op["g"])])
@@ -420,6 +423,8 @@ class Actor:
             return o.solver(op["name"], jcopy(op.get("opts", {})))
         if k == "set_value":
             return o.set_value(self.env.lookup(op["p"]), make_value(op["v"]))
+        if k == "set_value_cat":
+            return o.set_value(ca.vertcat(*[self.syms[p] for p in op["ps"]]), np.array(op["v"], dtype=float))
         if k == "set_initial":
             return o.set_initial(self.target(op["x"]), self.guess(op["g"]))
         if k == "callback":
